@@ -27,6 +27,13 @@ func init() {
 	Register(&Scenario{Name: "c19keys", Prop: "C19", MaxSteps: 100000, Run: runC19Keys, Post: postC19Keys})
 	Register(&Scenario{Name: "c19nat", Prop: "C19", MaxSteps: 100000, Run: func(rc *RunCtx) { runUDP(quiet(rc), "c03") }})
 	Register(&Scenario{Name: "c19met", Prop: "C19", MaxSteps: 100000, Tick: true, Run: func(rc *RunCtx) { runC17(quiet(rc)) }})
+	Register(&Scenario{Name: "c19tcp", Prop: "C19", MaxSteps: 200000, Run: func(rc *RunCtx) {
+		if rc.G.Draw(2) == 0 {
+			runC02(quiet(rc))
+		} else {
+			runC01(quiet(rc))
+		}
+	}})
 	Register(&Scenario{Name: "c19lst", Prop: "C19", MaxSteps: 100000, Run: func(rc *RunCtx) {
 		switch rc.G.Draw(3) {
 		case 0:
